@@ -80,7 +80,7 @@ def rehydrate(case):
 
 def gen(rng: random.Random, tier: str):
     cases = []
-    nmax = 6 if tier == "quick" else 7
+    nmax = 7 if tier == "quick" else 8
     # corpus: shapes the property text singles out (deep zigzag, stop below depth 3 in level order)
     deep = [[[[[[[], []], []], [[], []]], []], [[[[]]]]]]
     for kind in KINDS:
@@ -115,7 +115,7 @@ def gen(rng: random.Random, tier: str):
                     for md in (0, 2):
                         cases.append(mk_case(kind, spec, 0, md, filt, stop, tags=("allpred", kind)))
     # random larger trees
-    nr = 150 if tier == "quick" else 1500
+    nr = 400 if tier == "quick" else 3000
     for _ in range(nr):
         size = rng.randint(8, 40)
         shape = core.random_shape(rng, size)
